@@ -104,6 +104,33 @@ func runC01(c *runCfg) error {
 			emit("stale", "accept", junkSU, pw, conts[2], mode)
 		}
 	}
+	// large startup packets: the password message lands in the read buffer where the startup packet was;
+	// its trailing bytes (behind the password's NUL, legal and ignored) re-spell the startup parameters with
+	// another user at the very same offsets. The validator must see THIS connection's user and database.
+	for _, total := range []int{3000, 3900, 4000, 4090, 4096, 4100, 5000, 8100, 9000} {
+		body := startupBody([][2]string{{"user", "guest"}, {"database", "db"}, {"application_name", strings.Repeat("a", total)}}, true, nil)
+		su := untypedMsg(body)
+		// the same layout as the startup body (which begins with the 4-byte version): "apw\0" covers the version
+		evil := append([]byte("apw\x00"), bytes.Replace(body[4:], []byte("guest"), []byte("admin"), 1)...)
+		for _, pwm := range [][]byte{msg('p', evil), msg('p', evil[:len(evil)/2]), mPassword([]byte("apw"))} {
+			for mode := 0; mode < 2; mode++ {
+				for _, auth := range []string{"pw", "accept", "reject"} {
+					cfg := simpleCfg(16384)
+					cfg.auth = auth
+					cfg.authPW = []byte("apw")
+					var cs *caseT
+					if mode == 0 {
+						cs = lockCase(id, "aliasing", cfg, su, append([][]byte{pwm}, conts[1]...))
+						cs.pre = 2
+					} else {
+						cs = flatCase(id, "aliasing", cfg, cat(su, pwm, conts[1][0]), nil)
+					}
+					emitSession(c, cs)
+					id++
+				}
+			}
+		}
+	}
 	// corpus: the pinned witness — wrong password followed by a query
 	emit("corpus", "pw", startups[0], mPassword([]byte("bad")), conts[1], 1)
 	emit("corpus", "pw", startups[0], mPassword([]byte("bad")), conts[2], 1)
@@ -312,11 +339,15 @@ func runC10TLS(c *runCfg, only map[string]bool) {
 					msgs = append(msgs, mPassword([]byte("secret")))
 				}
 				for k, n := range sizes {
-					t := []byte{'Q', 'P', 'B', 'd', 'z'}[k%5]
+					// bodies of exactly n bytes that are well formed for their type
+					t := []byte{'Q', 'P', 'd', 'z', 'Q'}[(k+len(auth))%5]
 					body := bytes.Repeat([]byte{'x'}, n)
 					body[n-1] = 0
+					if t == 'P' && n >= 5 {
+						body = cat([]byte{0}, bytes.Repeat([]byte{'x'}, n-4), []byte{0, 0, 0})
+					}
 					msgs = append(msgs, msg(t, body))
-					if n > eff && (t == 'P' || t == 'B') {
+					if t == 'P' {
 						msgs = append(msgs, mSync())
 					}
 					msgs = append(msgs, mQuery([]byte("select 1")))
@@ -348,7 +379,7 @@ func runC10(c *runCfg) error {
 	}
 	runC10TLS(c, nil)
 	id := 0
-	limits := []int{1, 2, 5, 16, 40}
+	limits := []int{1, 2, 5, 8, 15, 16, 40}
 	if c.tier == "thorough" {
 		limits = nil
 		for l := 1; l <= 40; l++ {
@@ -359,6 +390,11 @@ func runC10(c *runCfg) error {
 	types := []byte{'Q', 'P', 'B', 'D', 'E', 'C', 'H', 'S', 'X', 'd', 'c', 'f', 'z'}
 	for _, L := range limits {
 		cfg := simpleCfg(L)
+		// the startup packet has to fit the limit as well: below 23 bytes the client sends no parameters (a body of 5 bytes)
+		su := stdStartup
+		if L < len(stdStartup)-4 {
+			su = startupMsg()
+		}
 		// the follow-up messages must fit the limit: Sync and Flush have empty bodies
 		max := L + 70
 		if L > 1000 {
@@ -388,18 +424,18 @@ func runC10(c *runCfg) error {
 					msgs := [][]byte{mSync(), mFlush(), mSync()}
 					msgs[pos] = m
 					msgs = append(msgs, mSync())
-					emitSession(c, lockCase(id, "boundary", cfg, stdStartup, msgs))
+					emitSession(c, lockCase(id, "boundary", cfg, su, msgs))
 					id++
 				}
 			}
 			// declared lengths below the minimum: 0..3 (the stream continues after the length field)
 			for dl := 0; dl < 4; dl++ {
-				emitSession(c, lockCase(id, "badlen", cfg, stdStartup, [][]byte{msgLen(t, uint32(dl), nil), mSync()}))
+				emitSession(c, lockCase(id, "badlen", cfg, su, [][]byte{msgLen(t, uint32(dl), nil), mSync()}))
 				id++
 			}
 			// huge declared lengths with truncated input
 			for _, dl := range []uint32{0x7fffffff, 0x80000000, 0x80000003, 0xffffffff, 0xfffffffb} {
-				emitSession(c, flatCase(id, "huge", cfg, cat(stdStartup, msgLen(t, dl, []byte("abc")), mSync()), nil))
+				emitSession(c, flatCase(id, "huge", cfg, cat(su, msgLen(t, dl, []byte("abc")), mSync()), nil))
 				id++
 			}
 		}
@@ -413,15 +449,15 @@ func runC10(c *runCfg) error {
 				// the skipped body looks like protocol messages: it must not be interpreted
 				copy(body, cat(mSync(), mQuery([]byte("select 1")))[:min(L+9, 5+5+13)])
 				msgs := [][]byte{msg(t1, make([]byte, L+3)), msg(t2, body), mFlush(), mSync(), mQuery([]byte("select 1"))}
-				emitSession(c, lockCase(id, "discarding", cfg, stdStartup, msgs))
+				emitSession(c, lockCase(id, "discarding", cfg, su, msgs))
 				id++
 			}
 		}
 		// the skipped region split over several reads
 		big := msg('Q', make([]byte, 3*L+7))
-		raw := cat(stdStartup, big, mSync())
+		raw := cat(su, big, mSync())
 		var chunks []int
-		chunks = append(chunks, len(stdStartup))
+		chunks = append(chunks, len(su))
 		for i := 0; i < len(big)+5; i += 3 {
 			chunks = append(chunks, 3)
 		}
@@ -432,7 +468,7 @@ func runC10(c *runCfg) error {
 		id++
 		acfg := simpleCfg(L + 30)
 		acfg.auth = "accept"
-		emitSession(c, flatCase(id, "auth", acfg, cat(stdStartup, msg('p', make([]byte, L+31)), mSync()), nil))
+		emitSession(c, flatCase(id, "auth", acfg, cat(su, msg('p', make([]byte, L+31)), mSync()), nil))
 		id++
 	}
 	// the startup packet obeys the same limit: bodies up to the limit are served whatever their size
